@@ -192,3 +192,52 @@ SYM_OF = {v: k for k, v in vp.LEX.items()}
 
 def to_syms(text):
     return [SYM_OF.get(c, "U+%04X" % ord(c)) for c in text]
+
+
+def negative_bins(run, libs, tag="", timeout=3000):
+    """libs: [{"name", "cfg", "files", "bins": [{"name", "body", "expect": "ok"|"fail"}]}]
+    Each lib becomes a package `<name>` exporting the generated `i18n` module and a package `<name>_bins` with one [[bin]] per
+    entry.  Everything is built with --keep-going; returns {lib name: {"lib_built": bool, "bins": {bin name: "ok"|"fail"}, "log": str}}."""
+    root = os.path.join(run.workdir, "negs" + tag)
+    shutil.rmtree(root, ignore_errors=True)
+    os.makedirs(root)
+    members = []
+    for lib in libs:
+        d = os.path.join(root, lib["name"])
+        vp.materialise({"cfg": lib["cfg"], "files": lib["files"]}, d)
+        with open(os.path.join(d, "Cargo.toml"), "w", encoding="utf8") as f:
+            f.write(cargo_toml(lib["name"], lib["cfg"]))
+        os.makedirs(os.path.join(d, "src"), exist_ok=True)
+        with open(os.path.join(d, "src", "lib.rs"), "w") as f:
+            f.write("#![allow(warnings)]\nleptos_i18n::load_locales!();\n")
+        bd = os.path.join(root, lib["name"] + "_bins")
+        os.makedirs(os.path.join(bd, "src", "bin"))
+        with open(os.path.join(bd, "Cargo.toml"), "w") as f:
+            f.write('[package]\nname = "%s_bins"\nversion = "0.0.0"\nedition = "2021"\n\n[dependencies]\n%s = { path = "../%s" }\n'
+                    'leptos = { version = "0.7.7", features = ["ssr"] }\n'
+                    'leptos_i18n = { path = "%s/leptos_i18n", default-features = false, features = [%s] }\n' % (
+                        lib["name"], lib["name"], lib["name"], vp.REPO, ", ".join(FEATURES)))
+        for b in lib["bins"]:
+            with open(os.path.join(bd, "src", "bin", b["name"] + ".rs"), "w", encoding="utf8") as f:
+                f.write("#![allow(warnings)]\nuse %s::i18n::*;\nuse leptos::prelude::*;\nfn main() {\n%s\n}\n" % (lib["name"], b["body"]))
+        members += [lib["name"], lib["name"] + "_bins"]
+    with open(os.path.join(root, "Cargo.toml"), "w") as f:
+        f.write('[workspace]\nresolver = "2"\nmembers = [%s]\n\n[profile.dev]\ndebug = 0\nopt-level = 1\n' % ", ".join('"%s"' % n for n in members))
+    shutil.copy(os.path.join(vp.HARNESS, "Cargo.lock"), os.path.join(root, "Cargo.lock"))
+    env = dict(os.environ)
+    env["CARGO_TARGET_DIR"] = os.path.join(vp.HARNESS, "target")
+    env["CARGO_NET_OFFLINE"] = "true"
+    t0 = time.time()
+    p = subprocess.run(["cargo", "build", "--offline", "--keep-going", "--message-format", "short"], cwd=root, env=env,
+                       stdout=subprocess.PIPE, stderr=subprocess.STDOUT, text=True, errors="replace", timeout=timeout)
+    vp.log("negative bins build (%d packages) in %.1fs rc=%d" % (len(members), time.time() - t0, p.returncode))
+    out = {}
+    for lib in libs:
+        lib_failed = ("could not compile `%s` (lib)" % lib["name"]) in p.stdout
+        bins = {}
+        for b in lib["bins"]:
+            failed = ('could not compile `%s_bins` (bin "%s")' % (lib["name"], b["name"])) in p.stdout
+            bins[b["name"]] = "fail" if (failed or lib_failed) else "ok"
+        out[lib["name"]] = {"lib_built": not lib_failed, "bins": bins,
+                            "log": "\n".join(l for l in p.stdout.splitlines() if (lib["name"] + "_bins/") in l or ("/" + lib["name"] + "/") in l)[-3000:]}
+    return out
